@@ -1,9 +1,131 @@
+import PbBss.Model.Masks
 import Driver.Util
-/-! line-protocol operations of the `Masks` models (stub: filled in by the owner of these models) -/
+/-! line-protocol operations of the `Masks` models.
+
+Tensor operations: `<op> r s₁ … s_r <params> <data>`; complex data as `re im` bit patterns in row-major order.
+Axis parameters are (possibly negative) integers; an optional axis is the pair `flag axis`.
+Reply: `r' s₁ … s_r' | <bit patterns of the result in row-major order>` or `raise`. -/
+open PbBss PbBss.Masks
 namespace Driver
 
+def tokInt (a : Array String) (i : Nat) : Int := (a[i]!).toInt!
+
+/-- all multi-indices of a shape in row-major order -/
+def allIdx : List Nat → List (List Nat)
+  | [] => [[]]
+  | n :: rest => (List.range n).flatMap fun i => (allIdx rest).map (i :: ·)
+
+def ravelIdx {r : Nat} (shape : Array Nat) (idx : Fin r → Nat) : Nat :=
+  Fin.foldl r (fun acc i => acc * shape[i.val]! + idx i) 0
+
+def shapeFn {r : Nat} (shape : Array Nat) : Fin r → Nat := fun i => shape[i.val]!
+
+def tensC (r : Nat) (shape : Array Nat) (data : Array Float) : Tens r CF :=
+  ⟨shapeFn shape, fun idx => let p := ravelIdx shape idx; ⟨data[2*p]!, data[2*p+1]!⟩⟩
+
+def outShape {r : Nat} {γ} (t : Tens r γ) : List Nat := (List.finRange r).map t.shape
+
+def readOut {r : Nat} {γ} (t : Tens r γ) : List γ :=
+  (allIdx (outShape t)).map fun l => let arr := l.toArray; t.get fun i => arr[i.val]!
+
+def fmtTens {r : Nat} (t : Tens r Float) : String :=
+  fmtNats (r :: outShape t) ++ " | " ++ fmtFloats (readOut t)
+
+def fmtTensC {r : Nat} (t : Tens r CF) : String :=
+  fmtNats (r :: outShape t) ++ " | " ++ fmtFloats ((readOut t).flatMap fun z => [z.re, z.im])
+
+def fmtTensOpt {r : Nat} (t : Tens r (Option Float)) : String :=
+  let vals := readOut t
+  if vals.any Option.isNone then "raise"
+  else fmtNats (r :: outShape t) ++ " | " ++ fmtFloats (vals.map fun v => v.getD 0)
+
+def axisFin (r : Nat) (a : Int) : Option (Fin r) :=
+  let n := normAxis r a
+  if h : n < r then some ⟨n, h⟩ else none
+
+/-- optional axis encoded as `flag axis`; result: `none` = malformed, `some none` = Python `None` -/
+def optAxis (r : Nat) (flag : Nat) (a : Int) : Option (Option (Fin r)) :=
+  if flag == 0 then some none else (axisFin r a).map some
+
+/-- apply `np.squeeze(·, se)` unless `keepdims` (or no sensor axis) -/
+def finish {r : Nat} {γ} (fmt : {r : Nat} → Tens r γ → String) (t : Tens r γ) (se : Option (Fin r)) (keep : Bool) : String :=
+  match r, t, se with
+  | _+1, t, some a => if keep then fmt t else fmt (Tens.squeezeT a t)
+  | _, t, _ => fmt t
+
+def readData (a : Array String) (off n : Nat) : Array Float := (Array.range n).map fun i => fl a off i
+
+def axesList (r : Nat) (a : Array String) (off n : Nat) : Option (List (Fin r)) :=
+  (List.range n).mapM fun i => axisFin r (tokInt a (off + i))
+
 def opsMasks (a : Array String) : Option String :=
-  match a[0]! with
-  | _ => none
+  let op := a[0]!
+  if op == "pct" then
+    -- pct <frac> n <row>
+    let n := tokNat a 2
+    some (fmtFloats [percentileLinear (tokFloat a 1) ((List.range n).map fun i => fl a 3 i)])
+  else if op == "lorthr" then
+    -- lorthr <fraction> n <row>
+    let n := tokNat a 2
+    match lorenzThreshold (tokFloat a 1) ((List.range n).map fun i => fl a 3 i) with
+    | some t => some (fmtFloats [t])
+    | none => some "raise"
+  else if op == "moveaxis" then
+    -- moveaxis r m src… dst…
+    let r := tokNat a 1; let m := tokNat a 2
+    some (fmtNats (moveaxisOrder r ((List.range m).map fun i => normAxis r (tokInt a (3 + i)))
+      ((List.range m).map fun i => normAxis r (tokInt a (3 + m + i)))))
+  else
+    let r := tokNat a 1
+    let shape : Array Nat := (Array.range r).map fun i => tokNat a (2 + i)
+    let size := shape.foldl (· * ·) 1
+    let o := 2 + r
+    match op with
+    | "ibm" => do
+      -- ibm r shape sa flag se keep <data>
+      let sa ← axisFin r (tokInt a o); let se ← optAxis r (tokNat a (o+1)) (tokInt a (o+2))
+      let t := tensC r shape (readData a (o+4) (2*size))
+      pure (finish fmtTens (ibmT (α := Float) t sa se) se (tokNat a (o+3) != 0))
+    | "wiener" => do
+      -- wiener r shape sa flag se keep <eps> <data>
+      let sa ← axisFin r (tokInt a o); let se ← optAxis r (tokNat a (o+1)) (tokInt a (o+2))
+      let t := tensC r shape (readData a (o+5) (2*size))
+      pure (finish fmtTens (wienerT (tokFloat a (o+4)) t sa se) se (tokNat a (o+3) != 0))
+    | "irm" => do
+      -- irm r shape sa <eps> <data>
+      let sa ← axisFin r (tokInt a o)
+      pure (fmtTens (irmT (tokFloat a (o+1)) (tensC r shape (readData a (o+2) (2*size))) sa))
+    | "iam" => do
+      let sa ← axisFin r (tokInt a o)
+      pure (fmtTens (iamT (tokFloat a (o+1)) (tensC r shape (readData a (o+2) (2*size))) sa))
+    | "psm" => do
+      let sa ← axisFin r (tokInt a o)
+      pure (fmtTens (psmT (tokFloat a (o+1)) (tensC r shape (readData a (o+2) (2*size))) sa))
+    | "icm" => do
+      -- icm r shape sa <data>
+      let sa ← axisFin r (tokInt a o)
+      pure (fmtTensC (icmT (tensC r shape (readData a (o+1) (2*size))) sa))
+    | "quantile" => do
+      -- quantile r shape <q> <w> m axes… <data>
+      let m := tokNat a (o+2)
+      let axes ← axesList r a (o+3) m
+      pure (fmtTens (quantileT (tokFloat a o) (tokFloat a (o+1)) (tensC r shape (readData a (o+3+m) (2*size))) axes))
+    | "lorenz" => do
+      -- lorenz r shape <fraction> <w> flag se keep m axes… <data>
+      let se ← optAxis r (tokNat a (o+2)) (tokInt a (o+3))
+      let m := tokNat a (o+5)
+      let axes ← axesList r a (o+6) m
+      let t := tensC r shape (readData a (o+6+m) (2*size))
+      pure (finish fmtTensOpt (lorenzT (tokFloat a o) (tokFloat a (o+1)) t se axes) se (tokNat a (o+4) != 0))
+    | "transpose" => do
+      -- transpose r shape order… <data>   (np.transpose / np.moveaxis on the data itself)
+      let order : Array Nat := (Array.range r).map fun i => tokNat a (o + i)
+      let inv : Array Nat := (Array.range r).map fun j => (order.toList.idxOf j)
+      let t := tensC r shape (readData a (o+r) (2*size))
+      if order.all (· < r) then
+        pure (fmtTensC (Tens.transposeT (fun i => ⟨order[i.val]! % r, Nat.mod_lt _ (by have := i.isLt; omega)⟩)
+          (fun i => ⟨inv[i.val]! % r, Nat.mod_lt _ (by have := i.isLt; omega)⟩) t))
+      else none
+    | _ => none
 
 end Driver
